@@ -58,6 +58,10 @@ DEAD_CODE = [
     "{ RdV = (0 ? PuN : RtV); }", "{ RdV = (1 ? RtV : (PuV ? NsN : RtV)); }", "{ RdV = (0 ? P0 : RtV); if (0) { P1 = RsV; } }",
     "{ if (1 == 0) { EA = RsV; mem_store_u32(EA, RtV); } RdV = RsV; }", "{ if (0) { JUMP(RsV); } RdV = RsV; }",
     "{ RdV = RsV; (RtV + 1); }", "{ RdV = (1 ? RsV : clz32(RtV)); }",
+    "{ RdV = (1 == 0) ? ((RsV > 0) ? ({ RxV = RtV; 5; }) : 7) : 3; }", "{ RdV = (0 ? ((RsV > RtV) ? ({ int32_t q = RtV; q; }) : 7) : 3); }",
+    "{ RdV = (1 ? 3 : ((RsV > 0) ? 7 : ({ RxV = RtV; 5; }))); }", "{ RdV = (1 == 0) ? ((RsV + 1 > 0) ? (RtV * 2) : ((int32_t)clz32(RtV))) : 3; }",
+    "{ RdV = (0 ? ({ set_usr_field(bundle, HEX_REG_FIELD_USR_OVF, 1); RsV; }) : RtV); }",
+    "{ RdV = (1 == 0) ? ((RsV > 0) ? ({ set_usr_field(bundle, HEX_REG_FIELD_USR_OVF, 1); 5; }) : 7) : 3; }",
 ]
 
 
